@@ -24,6 +24,8 @@ type byteTracer struct {
 	lossy  map[string]bool
 	// needsGate: transformers acceptable only together with an over-limit rejection (C06)
 	gated []string
+	// noRecords: a field load is an origin of its own (the read side asks which field)
+	noRecords bool
 }
 
 func newByteTracer(c *Ctx) *byteTracer {
@@ -96,6 +98,11 @@ func (t *byteTracer) trace(v ssa.Value, depth int, seen map[ssa.Value]bool) []or
 	case *ssa.UnOp:
 		if x.Op == token.MUL {
 			if f := eng.AddrField(x.X); f != nil {
+				// a field of a per-call record that is set exactly once in its package
+				// (delivery{source: source}): what was put there
+				if sv, ok := recordField(p, x); ok && !t.noRecords {
+					return t.trace(sv, depth+1, seen)
+				}
 				return []origin{{"field", f.Name(), x}}
 			}
 			if cell := eng.CellOf(x.X); cell != nil && !eng.CellEscapes(cell) {
@@ -575,6 +582,7 @@ func (c *Ctx) c02Stores() {
 		okSrc := false
 		for _, ret := range successReturns(memSrc) {
 			tr := newByteTracer(c)
+			tr.noRecords = true
 			os := tr.trace(eng.ReturnResults(ret)[0], 0, map[ssa.Value]bool{})
 			if len(os) == 1 && os[0].kind == "field" && os[0].what == "source" {
 				okSrc = true
@@ -1164,7 +1172,26 @@ func (c *Ctx) c02Pop3() {
 				s, isC := eng.ConstString(a)
 				return isC && s == "."
 			}
-			if ret := (&eng.Search{Target: eng.IsReturnOf(fn), Avoid: isTerm, Deep: true}).After(sc); ret != nil && !eng.IsRecoverBlock(ret.Block()) {
+			// the streaming loop may live in a helper that leaves the terminator to its callers
+			// (relayLines): then every call of the helper is followed by it on every path
+			var termAfter func(g *ssa.Function, from ssa.Instruction, depth int) ssa.Instruction
+			termAfter = func(g *ssa.Function, from ssa.Instruction, depth int) ssa.Instruction {
+				ret := (&eng.Search{Target: eng.IsReturnOf(g), Avoid: isTerm, Deep: true}).After(from)
+				if ret == nil || eng.IsRecoverBlock(ret.Block()) {
+					return nil
+				}
+				sites := p.StaticCallSites(g)
+				if depth >= 2 || g.Parent() != nil || len(sites) == 0 || len(p.CallersOf(g)) != len(sites) {
+					return ret
+				}
+				for _, cs := range sites {
+					if bad := termAfter(cs.Instr.Parent(), cs.Instr.(ssa.Instruction), depth+1); bad != nil {
+						return bad
+					}
+				}
+				return nil
+			}
+			if ret := termAfter(fn, sc, 0); ret != nil {
 				r.Bad("C02/POP3/lines", cons+":terminator", p.InstrPos(ret), "a return after streaming began does not send the \".\" terminator: the client waits forever")
 			} else {
 				r.Ok("C02/POP3/lines", cons+":terminator", p.InstrPos(sc), "\".\" is sent on every exit after streaming began")
